@@ -385,8 +385,11 @@ impl<'a> HeaderValueEncoder<'a> {
 }
 
 fn allowed_str(s: &str) -> bool {
-    // "=?" could make a reader take the word for an RFC 2047 encoded-word
-    s.bytes().all(allowed_char) && !s.contains("=?")
+    // A token of the form "=?...?=" would be taken for an RFC 2047 encoded-word by a reader
+    s.bytes().all(allowed_char)
+        && !s
+            .split(|c| c == ' ' || c == '\t')
+            .any(|token| token.starts_with("=?") && token.ends_with("?="))
 }
 
 const fn allowed_char(c: u8) -> bool {
